@@ -50,8 +50,9 @@ TRUSTED_SESS = "oracle: MPD session model (contracts/spec/sess.rs): while the se
 TRUSTED_ASYNC = 'N2 de-async: suspension points are dropped; sound for single-task reasoning because everything a task touches between two awaits is owned or &mut-borrowed by it; other tasks are visible only through channels whose contracts are nondeterministic; N3: select! is an arbitrary choice (any polling order, no fairness); cancellation of the losing future is NOT modelled beyond the cancel-safety obligation of AsyncConnection::receive (C04.cancel_safe)'
 TRUSTED_CHAN = 'concurrency between client handles is abstracted by the queue contract (unbounded mpsc FIFO across all sender clones, items travel as tuples), not explored schedule by schedule; drop semantics of Rust (State, responders and the transport are dropped when run_loop returns) are assumed, not checked'
 for _k in ('C01', 'C04', 'C05', 'C08'):
-    PROPS[_k] = {'units': ['C'], 'spec_tags': ['sess'], 'trusted': [TRUSTED_TOKIO, TRUSTED_SESS, TRUSTED_ASYNC, TRUSTED_CHAN, TRUSTED_BYTES, TRUSTED_STD], 'bounded': []}
+    PROPS[_k] = {'units': ['C'], 'spec_tags': ['sess'], 'trusted': [TRUSTED_TOKIO, TRUSTED_SESS, TRUSTED_ASYNC, TRUSTED_CHAN, TRUSTED_BYTES, TRUSTED_STD], 'bounded': ['clientsim']}
 
 PROPS['C18']['units'] = ['P', 'C']
 PROPS['C18']['spec_tags'] = ['wire', 'fold', 'sess']
+PROPS['C18']['bounded'] = list(PROPS['C18'].get('bounded', [])) + ['clientsim']
 PROPS['C18']['trusted'] = PROPS['C18']['trusted'] + [TRUSTED_ASYNC, 'the password is one argument the command builder accepts (no LF / NUL after rendering): precondition of do_connect, otherwise Command::argument panics (observation, DESIGN §10)']
